@@ -37,6 +37,16 @@ class LruRule(BaseRule):
         self.accesses = 0
 
     wants_subscript = True
+    max_while = 2
+
+    def loop_enter(self, it, stmt, st):
+        """a `while` loop that removes / disposes one value per round accumulates bookkeeping: explored for a bounded number of rounds"""
+        k = ("while", it.frame, stmt.lineno)
+        n = st.ts.get(k, 0)
+        if n > self.max_while:
+            return False
+        st.ts[k] = n + 1
+        return True
 
     def _is_cont(self, node):
         return astq.is_self_attr(node, self.cont)
